@@ -4,7 +4,8 @@ import re
 import qlib
 from qlib import (peel_not, AnalysisBroken, strip, isnode, walk, is_call, norm_cmp, var_ref, is_null, const_val, short, call_obj,
                   expr_key, field_name, is_this_field)
-from rules.common import (straight_after, core_and_neg, tnode, other, cpos, npos, branches_on_call, in_subtree, need_some, loops_enclosing)
+from rules.common import (straight_after, core_and_neg, tnode, other, cpos, npos, branches_on_call, in_subtree, need_some, loops_enclosing,
+                          eq_kind, branches_on_var_null)
 import gen_macros
 
 EXPLANATION = ("Named arguments. R1 (exhaustive over every generator macro defined, k = 0..26): the LOGV_ generator yields a literal "
@@ -201,14 +202,50 @@ def r3(ctx, facts):
         mfv = var_ref(gcall[0]["args"][12]) if gcall and len(gcall[0]["args"]) >= 13 else None
         asg = f.assignments_to_var(mfv) if mfv is not None else []
         repl = [c for c in f.calls(r"basic_string<.*>::replace$") if is_this_field(call_obj(c), "_format")]
-        ok = bool(nl) and bool(asg) and bool(repl) and \
+        # accepted second idiom: std::replace(_format.begin(), _format.end(), '\n', c)
+        alt = [c for c in f.calls(r"^std::replace<") if len(c["args"]) == 4 and all(any(is_this_field(x, "_format") for x in walk(a_)) for a_ in c["args"][:2]) and
+               any(is_call(x, r"::begin$") for x in walk(c["args"][0])) and any(is_call(x, r"::end$") for x in walk(c["args"][1])) and const_val(c["args"][2]) == 10]
+        ok = bool(nl) and bool(asg) and (bool(repl) or bool(alt)) and \
             all(any(is_this_field(x, "_format") for x in walk(a["rhs"])) for a in asg) and \
             all(not g.exists_path([tnode(g, b)], gen, avoid_nodes=npos(f, asg), avoid_edges=[(b, other(l))]) for (b, l) in nl) and \
             all(g.dominates(npos(f, repl), p) or True for p in npos(f, asg))
         loops = [a for c in repl for a in f.ancestors(c) if a["k"] in ("ForStmt", "WhileStmt")]
-        ok = ok and bool(loops) and any(is_call(x, r"basic_string<.*>::find$") and const_val(x["args"][0]) == 10 for x in walk(loops[0]))
+        ok = ok and (bool(alt) or (bool(loops) and any(is_call(x, r"basic_string<.*>::find$") and const_val(x["args"][0]) == 10 for x in walk(loops[0]))))
         ctx.ob("C19.R3d", site + ":template-newlines-removed", ok,
                "a template containing a newline is copied, every newline replaced, and the rewritten copy is what goes into the object", fn=f)
+        # R3g: the copy is this statement's template (assigned from message_format() before the replace loop, on the newline outcome);
+        # R3h: the loop looks at every character: the search starts at 0, continues while a newline was found, and each replacement
+        # removes exactly the one newline character
+        cp = [n for n in f.walk() if ((n["k"] == "CXXOperatorCallExpr" and short(n.get("callee") or "").endswith("operator=") and len(n["args"]) == 2 and
+                                       is_this_field(n["args"][0], "_format") and any(is_call(x, r"MacroMetadata::message_format$") for x in walk(n["args"][1]))) or
+                                      (is_call(n, r"basic_string<.*>::assign$") and is_this_field(call_obj(n), "_format") and
+                                       any(is_call(x, r"MacroMetadata::message_format$") for x in walk(n))))]
+        cpp = npos(f, cp)
+        rp = npos(f, repl + alt)
+        lp_heads = [q for l_ in loops for q in (g.positions(l_.get("cond")) if l_.get("cond") is not None else [])]
+        ok_g = bool(cpp) and bool(nl) and all(not g.exists_path([tnode(g, b)], rp + lp_heads, avoid_nodes=cpp, avoid_edges=[(b, other(l))]) for (b, l) in nl)
+        ctx.ob("C19.R3g", site + ":template-copied-afresh", ok_g,
+               "on the 'template has a newline' outcome the scratch string is assigned this statement's message_format() before any newline "
+               "is searched or replaced in it", fn=f)
+        ok_h = False
+        if loops and repl:
+            lp = loops[0]
+            posv = None
+            for d in walk(lp.get("init")) if lp.get("init") is not None else []:
+                if d.get("k") == "Var" and const_val(d.get("init")) == 0:
+                    posv = d["did"]
+            condk = eq_kind(lp.get("cond")) if lp.get("cond") is not None else None
+            found_ne = condk is not None and condk[0] == "!=" and any(x["k"] == "DeclRefExpr" and x.get("name", "").endswith("npos") for x in walk(lp["cond"]))
+            srch = [x for x in walk(lp.get("cond")) if is_call(x, r"basic_string<.*>::find$")]
+            from_pos = bool(srch) and posv is not None and all(var_ref(strip(x["args"][1], casts=True)) == posv for x in srch if len(x["args"]) > 1)
+            one = all(var_ref(strip(c["args"][0], casts=True)) == posv and const_val(c["args"][1]) == 1 and
+                      [len(x.get("str", "")) for x in walk(c["args"][2]) if x["k"] == "StringLiteral"] == [1] for c in repl)
+            inc = lp.get("inc")
+            step1 = isnode(inc) and strip(inc)["k"] == "UnaryOperator" and strip(inc)["op"] in ("++",) and var_ref(strip(inc)["sub"]) == posv
+            ok_h = posv is not None and found_ne and from_pos and one and step1
+        ctx.ob("C19.R3h", site + ":every-newline-replaced-one-for-one", ok_h or (bool(alt) and not repl),
+               "the newline search starts at index 0, the loop continues exactly while a newline was found, each one is replaced by a single "
+               "character (count 1, one-character replacement) and the search resumes right behind it", fn=f)
     for f in facts.need("quill::detail::JsonSink::generate_json_message", "A", floor=2):
         site = "JsonSink<%s>::generate_json_message" % f.name.split("JsonSink<")[1].split(">")[0].replace("quill::", "")
         fm = [c for c in f.calls(r"^fmtquill::(v\d+::)?format\b")]
@@ -242,6 +279,16 @@ def r3(ctx, facts):
             ok = over and not early and kinds == [',"', "<key>", '":"', "<value>", '"']
         ctx.ob("C19.R3f", site + ":one-pair-per-named-arg", ok,
                "every named argument is appended as ,\"key\":\"value\" in list order", fn=f)
+        # R3i: the pairs are emitted exactly when the statement has a named-args list
+        g = f.g
+        nulls = branches_on_var_null(f, f.rec["params"][9]["did"])
+        heads = g.positions(loops[0].get("range")) if loops and loops[0].get("range") is not None else []
+        if loops and not heads:
+            heads = [q for c in f.calls(r"::append\b") if in_subtree(c, loops[0].get("body")) for q in g.positions(c)]
+        ok_i = bool(nulls) and bool(heads) and not g.exists_path([g.entry_node], heads, avoid_edges=[(b, other(l)) for (b, l) in nulls]) and \
+            all(not g.exists_path([y for (y, l2) in g.succ.get(tnode(g, b), ()) if l2 == other(l)], [g.exit_node], avoid_nodes=heads) for (b, l) in nulls)
+        ctx.ob("C19.R3i", site + ":pairs-iff-list-present", ok_i,
+               "the key/value loop runs exactly on the 'named_args is not null' outcome (never dereferenced when null, never skipped when present)", fn=f)
 
 
 def r5_placeholder_scanner(ctx, facts):
@@ -427,6 +474,16 @@ def r4(ctx, facts):
     f = facts.need(BW + "_format_and_split_arguments", "A")[0]
     g = f.g
     site = "_format_and_split_arguments"
+    # R4f: the joined placeholder string depends on the template's specs *and* on how many arguments this statement passed (trailing
+    # unnamed ones get '{}'): it is built for the statement at hand — the function keeps nothing between calls: no static local, no
+    # member (it is a static function) and no in/out parameter besides the pair list it fills
+    statics = [v["name"] for x in f.walk() if x["k"] == "DeclStmt" for v in x.get("decls") or []
+               if (v.get("static") or v.get("tls")) and not (v.get("ty") or "").startswith("const ")]
+    outs = [p.get("name") for p in f.rec["params"] if (p.get("ty") or "").rstrip().endswith("&") and not (p.get("ty") or "").startswith("const ")]
+    uses_this = any(x["k"] == "CXXThisExpr" for x in f.walk())
+    ctx.ob("C19.R4f", site + ":nothing-kept-between-statements", not statics and not uses_this and len(outs) == 1,
+           "the splitter is a function of this statement's names, values and argument store: no static local (%s), no member access (%s), "
+           "the pair list is its only in/out parameter (%s)" % (statics or "none", uses_this, outs), fn=f)
     named = f.rec["params"][1]["did"]
     decls = f.var_decls()
     fs = [v for v, d in decls.items() if d.get("name") == "format_string" or (d.get("ty") == "std::string" and v in
